@@ -44,26 +44,28 @@ pub struct AllOptional {
     plain: Option<u32>,
     // an UNRENAMED raw identifier: whatever key the macro derives from it, writing and reading must agree
     r#loop: Option<u32>,
+    // a default key is the identifier as written (here with its trailing underscore)
+    ref_: Option<u32>,
 }
 fn extra_shapes<P: Backend>(o: &mut Outcome, feats: &[String]) where AllOptional: FromDeb822Paragraph<P> + ToDeb822Paragraph<P> {
     let be = P::NAME;
     let api = format!("{} derive on an all-optional struct", be);
     let values = [AllOptional::default(),
-        AllOptional { r#type: Some("deb".into()), words: Some(vec!["a".into(), "b".into()]), plain: Some(7), r#loop: Some(3) },
-        AllOptional { r#type: None, words: Some(vec!["x".into()]), plain: None, r#loop: Some(0) }];
+        AllOptional { r#type: Some("deb".into()), words: Some(vec!["a".into(), "b".into()]), plain: Some(7), r#loop: Some(3), ref_: Some(9) },
+        AllOptional { r#type: None, words: Some(vec!["x".into()]), plain: None, r#loop: Some(0), ref_: None }];
     for x in values.iter() {
         o.evals += 1;
         let r = guarded(&api, || {
             let p = <AllOptional as ToDeb822Paragraph<P>>::to_paragraph(x);
-            let want: Vec<(String, String)> = [x.r#type.clone().map(|v| ("Type".to_string(), v)), x.words.clone().map(|v| ("Words".to_string(), v.join(" "))), x.plain.map(|v| ("plain".to_string(), v.to_string()))].into_iter().flatten().collect();
+            let want: Vec<(String, String)> = [x.r#type.clone().map(|v| ("Type".to_string(), v)), x.words.clone().map(|v| ("Words".to_string(), v.join(" "))), x.plain.map(|v| ("plain".to_string(), v.to_string())), x.ref_.map(|v| ("ref_".to_string(), v.to_string()))].into_iter().flatten().collect();
             let known = |l: Vec<(String, String)>| -> Vec<(String, String)> { l.into_iter().filter(|(k, _)| !k.contains("loop")).collect() };
             if known(p.list()) != want { return Err(format!("to_paragraph gave {:?}, expected {:?}", p.list(), want)); }
             let back = <AllOptional as FromDeb822Paragraph<P>>::from_paragraph(&p).map_err(|e| format!("own paragraph rejected: {}", e))?;
             if &back != x { return Err(format!("read back {:?}, expected {:?}", back, x)); }
             // update: a paragraph holding all three fields and a foreign one, updated from x
-            let mut q = P::build(&[("Other".to_string(), "keep".to_string()), ("Type".to_string(), "old".to_string()), ("Words".to_string(), "o l d".to_string()), ("plain".to_string(), "1".to_string())]);
+            let mut q = P::build(&[("Other".to_string(), "keep".to_string()), ("Type".to_string(), "old".to_string()), ("Words".to_string(), "o l d".to_string()), ("plain".to_string(), "1".to_string()), ("ref".to_string(), "foreign: not ours".to_string())]);
             <AllOptional as ToDeb822Paragraph<P>>::update_paragraph(x, &mut q);
-            let mut w2 = vec![("Other".to_string(), "keep".to_string())]; w2.extend(want.clone());
+            let mut w2 = vec![("Other".to_string(), "keep".to_string()), ("ref".to_string(), "foreign: not ours".to_string())]; w2.extend(want.clone());
             let (mut got, mut exp) = (known(q.list()), w2); got.sort(); exp.sort();
             let again = <AllOptional as FromDeb822Paragraph<P>>::from_paragraph(&q).map_err(|e| format!("updated paragraph rejected: {}", e))?;
             if &again != x { return Err(format!("updated paragraph reads as {:?}, expected {:?}", again, x)); }
